@@ -474,11 +474,14 @@ import numpy as np
 warnings.simplefilter('ignore')
 classes = %(classes)r; loose = %(loose)r
 class Alarm(BaseException): pass
-def handler(*a): raise Alarm()
+FIRED = [False]
+def handler(*a):
+    FIRED[0] = True          # the exception may be swallowed inside a SciPy callback: the flag is authoritative
+    raise Alarm()
 signal.signal(signal.SIGALRM, handler)
 out = {}
 for key in classes:
-    mod, cls = key.split(':'); bad = []
+    mod, cls = key.split(':'); bad = []; FIRED[0] = False
     try:
         C = getattr(importlib.import_module(mod), cls)
         signal.alarm(%(per)d)
@@ -510,6 +513,7 @@ for key in classes:
         out[key] = {'evaluated': True, 'failures': bad[:4], 'tolerance': tol}
     except Alarm: out[key] = {'evaluated': False, 'failures': [], 'timeout': True}
     except Exception as e: out[key] = {'evaluated': False, 'failures': [], 'error': type(e).__name__}; signal.alarm(0)
+    if FIRED[0]: out[key] = {'evaluated': False, 'failures': [], 'timeout': True}
 print(json.dumps({'reproduced': any(v['failures'] for v in out.values()), 'classes': out}))
 """
 LOOSE = ['sedov', 'sdrz', 'riemann', 'guderley', 'radshocks', 'ehep']      # documented grid dependence: internal grids / interpolation tables built from the request (tolerance 2e-2)
@@ -518,7 +522,7 @@ SKIP = ['ep_piston', 'mader']      # ep_piston: known finding (raises depending 
 
 def permutation_unit(chunk, tier):
     """bounded: value at a point does not depend on order, subsets, supersets or duplicates of the request (one default-constructed object per class)"""
-    r_ = native.run_script(PERMUTE % dict(classes=chunk, loose=LOOSE, per=12 if tier == 'quick' else 400), timeout=3600)
+    r_ = native.run_script(PERMUTE % dict(classes=chunk, loose=LOOSE, per=25 if tier == 'quick' else 400), timeout=3600)
     res = {'obligations': [], 'functions': [], 'engine_errors': [], 'bounded': []}
     if r_.get('result') is None:
         res['engine_errors'].append('bounded permutation check did not run: ' + (r_.get('stderr_tail') or '')[-300:]); return res
